@@ -18,7 +18,7 @@ const prc = 1 << partBits
 var logShapes = []string{"none", "none", "none", "none", "order", "secret", "cudnew", "sync-order", "unknown", "none"}
 
 // class f4: events that are not valid and still carry what the builder was given (C02-F4)
-var f4Shapes = []string{"bad-order", "bad-secret", "bad-field", "none", "order", "unknown"}
+var f4Shapes = []string{"bad-order", "bad-secret", "bad-field", "none", "order", "unknown", "order-empties"}
 var allShapes = append(append([]string{}, validShapes...), invalidShapes...)
 var backends = []string{"mem", "cached-mem", "bbolt", "mem", "cached-bbolt", "mem"}
 
